@@ -68,7 +68,13 @@ Progs == <<
   (* 20 a capture inside a loop, printed in the loop; an assign in between *)
   <<[t |-> "for", tag |-> "for", var |-> X, coll |-> R13,
      body |-> <<[t |-> "capture", name |-> <<99>>, body |-> <<T(<<91>>), Ob(Var(X)), T(<<93>>)>>],
-                [t |-> "assign", name |-> <<100>>, e |-> Var(<<99>>)], Ob(Var(<<100>>))>>], T(<<10>>)>>
+                [t |-> "assign", name |-> <<100>>, e |-> Var(<<99>>)], Ob(Var(<<100>>))>>], T(<<10>>)>>,
+  (* 21 a long text, then constructs whose own output is short (include, object, tablerow cell): a writer that
+        accepts part of the long write reports a count larger than anything written next *)
+  <<T(<<108, 111, 110, 103, 32, 116, 101, 120, 116, 32, 104, 101, 114, 101>>), [t |-> "include", e |-> Lit(Str(INC))],
+    T(<<97, 110, 111, 116, 104, 101, 114, 32, 108, 111, 110, 103, 32, 111, 110, 101>>), Ob(Var(X)),
+    T(<<121, 101, 116, 32, 97, 110, 111, 116, 104, 101, 114, 32, 111, 110, 101>>),
+    [t |-> "for", tag |-> "tablerow", var |-> X, coll |-> R13, lim |-> Lit(IntV(1)), body |-> <<>>]>>
 >>
 Env2 == << <<X, Str(<<88>>)>>, <<<<108>>, Arr(<<IntV(1), Str(<<50>>), Nil, IntV(3)>>)>>, <<<<101>>, Arr(<<>>)>> >>
 Cx == [Cx0 EXCEPT !.pol = [Intended EXCEPT !.flushErr = FlushPolicy], !.path = TopPath, !.cache = << <<INC, IncBody>> >>]
@@ -76,7 +82,7 @@ Cx == [Cx0 EXCEPT !.pol = [Intended EXCEPT !.flushErr = FlushPolicy], !.path = T
 Ref(i) == Render(Cx, Progs[i], EnvOf(Env2))
 Calls(i) == Run(Cx, InitSt(Progs[i], EnvOf(Env2), Sink0, Cx)).sink.calls
 
-Init == \E i \in 1..Len(Progs) : \E k \in 1..(Calls(i) + 1) : \E keep \in {0, 1, 100} :
+Init == \E i \in 1..Len(Progs) : \E k \in 1..(Calls(i) + 1) : \E keep \in {0, 1, 100, 0 - 1} :
           /\ p = [i |-> i, k |-> k, keep |-> keep]
           /\ st = InitSt(Progs[i], EnvOf(Env2), [Sink0 EXCEPT !.failAt = k, !.keep = keep], Cx)
 Next == st.status = "run" /\ st' = Step(Cx, st) /\ p' = p
